@@ -725,6 +725,7 @@ pub fn run(ctx: &mut Ctx) -> Result<(), Violation> {
     ctx.stage("random-histories-operands-crossing-environments", false, r)?;
     let wc = ctx.tier.cases(4_000, 150_000);
     crate::wide::stage_conn(ctx, "wide-functions-canonical-results", true, wc)?;
+    crate::wide::stage_collisions(ctx, "equal-hash-sub-diagrams-under-one-root", "canon")?;
     Ok(())
 }
 
